@@ -21,7 +21,7 @@ Ltac finish :=
   try (repeat f_equal; lia).
 
 Ltac crush_X :=
-  intros [[cs|] [d|]] [ns r|r c|n|n|];
+  intros opq [[cs|] [d|]] [ns r|r c|n|n|];
   cbv [StreamingDetector_validate_X BatchDetector_validate_X
        validate_X_stream validate_X_batch df_branch_stream df_branch_batch arr_branch coerce_stream coerce_batch
        np_of np_size np_ndim np_reshape_1_m1 np_reshape_m1_1 np_ravel np_shape0 np_shape1 np_has0 np_has1
@@ -29,28 +29,83 @@ Ltac crush_X :=
   split_ifs; finish.
 
 Theorem StreamingDetector_validate_X_eq :
-  forall st x, StreamingDetector_validate_X st x = (validate_X_stream st x, true).
+  forall opq st x, StreamingDetector_validate_X opq st x = (validate_X_stream st x, true).
 Proof. crush_X. Qed.
 Print Assumptions StreamingDetector_validate_X_eq.
 
 Theorem BatchDetector_validate_X_eq :
-  forall st x, BatchDetector_validate_X st x = (validate_X_batch st x, true).
+  forall opq st x, BatchDetector_validate_X opq st x = (validate_X_batch st x, true).
 Proof. crush_X. Qed.
 Print Assumptions BatchDetector_validate_X_eq.
 
 Ltac crush_y :=
-  intros [ns r|r c|n|n|];
+  intros opq [ns r|r c|n|n|];
   cbv [StreamingDetector_validate_y BatchDetector_validate_y validate_y_stream validate_y_batch size_of coerce_stream
        np_of np_size np_ndim np_reshape_1_m1 np_reshape_m1_1 np_ravel np_shape0 np_shape1 np_has0 np_has1 np_shape_is_1
        fst snd negb andb orb];
   split_ifs; finish.
 
 Theorem StreamingDetector_validate_y_eq :
-  forall y, StreamingDetector_validate_y y = (validate_y_stream y, true).
+  forall opq y, StreamingDetector_validate_y opq y = (validate_y_stream y, true).
 Proof. crush_y. Qed.
 Print Assumptions StreamingDetector_validate_y_eq.
 
 Theorem BatchDetector_validate_y_eq :
-  forall y, BatchDetector_validate_y y = (validate_y_batch y, true).
+  forall opq y, BatchDetector_validate_y opq y = (validate_y_batch y, true).
 Proof. crush_y. Qed.
 Print Assumptions BatchDetector_validate_y_eq.
+
+(** The validation prologues of the concrete detectors: prior_input / super()._validate_input / guard-with-restore
+    (ADWIN, CUSUM, PageHinkley .update; HistogramDensityMethod.set_reference) and CDBD's early guards. *)
+Ltac crush_prologue base_eq :=
+  intros opq [oc od] x; cbv beta delta [ADWIN_update_validate CUSUM_update_validate PageHinkley_update_validate
+                                     HistogramDensityMethod_set_reference_validate];
+  cbn [input_cols input_col_dim]; rewrite base_eq;
+  cbv beta delta [validate_univariate validate_reference_min3];
+  match goal with |- context [?V (mkV oc od) x] => destruct (V (mkV oc od) x) as [[r c] [sc sd]|[sc sd]] end;
+  cbv [np_ndim np_shape0 np_shape1 np_has0 np_has1 fst snd negb andb orb input_cols input_col_dim];
+  split_ifs; finish.
+
+Theorem ADWIN_update_validate_eq :
+  forall opq st x, ADWIN_update_validate opq st x = (validate_univariate st x, true).
+Proof. crush_prologue StreamingDetector_validate_X_eq. Qed.
+Print Assumptions ADWIN_update_validate_eq.
+
+Theorem CUSUM_update_validate_eq :
+  forall opq st x, CUSUM_update_validate opq st x = (validate_univariate st x, true).
+Proof. crush_prologue StreamingDetector_validate_X_eq. Qed.
+Print Assumptions CUSUM_update_validate_eq.
+
+Theorem PageHinkley_update_validate_eq :
+  forall opq st x, PageHinkley_update_validate opq st x = (validate_univariate st x, true).
+Proof. crush_prologue StreamingDetector_validate_X_eq. Qed.
+Print Assumptions PageHinkley_update_validate_eq.
+
+Theorem HistogramDensityMethod_set_reference_validate_eq1 :
+  forall opq st x, HistogramDensityMethod_set_reference_validate opq 1 st x = (validate_reference_min3 st x, true).
+Proof. crush_prologue BatchDetector_validate_X_eq. Qed.
+Print Assumptions HistogramDensityMethod_set_reference_validate_eq1.
+
+Theorem HistogramDensityMethod_set_reference_validate_eq23 :
+  forall opq db st x, db <> 1 -> HistogramDensityMethod_set_reference_validate opq db st x = (validate_X_batch st x, true).
+Proof.
+  intros opq db [oc od] x Hdb; cbv beta delta [HistogramDensityMethod_set_reference_validate];
+  cbn [input_cols input_col_dim]; rewrite BatchDetector_validate_X_eq;
+  destruct (validate_X_batch (mkV oc od) x) as [[r c] [sc sd]|[sc sd]];
+  cbv [np_ndim np_shape0 np_shape1 np_has0 np_has1 fst snd negb andb orb input_cols input_col_dim];
+  split_ifs; finish.
+Qed.
+Print Assumptions HistogramDensityMethod_set_reference_validate_eq23.
+
+Ltac crush_guard :=
+  intros opq [ns r|r c|n|n|];
+  cbv [CDBD_update_guard CDBD_set_reference_guard cdbd_guard np_of np_ndim np_shape1 np_has1 negb andb orb];
+  split_ifs; finish.
+
+Theorem CDBD_update_guard_eq : forall opq x, CDBD_update_guard opq x = (cdbd_guard x, true).
+Proof. crush_guard. Qed.
+Print Assumptions CDBD_update_guard_eq.
+
+Theorem CDBD_set_reference_guard_eq : forall opq x, CDBD_set_reference_guard opq x = (cdbd_guard x, true).
+Proof. crush_guard. Qed.
+Print Assumptions CDBD_set_reference_guard_eq.
